@@ -56,7 +56,9 @@ func c08(c *Ctx) {
 	// random and special inputs
 	r := c.Rng
 	special := []string{"", " ", "\n\t", "// c", "/* c */", "/* open", "$.a /* c */", "$.a // c\n", "\"open", "'x", "$.a.Equal(\"x", "$.a.Equal(NaN)", "$.a.Equal(Inf)", "$.a.Equal(-Inf)", "$.a.Equal(infinity)", "$.a.Equal(nan)", "$.a.Equal(1e400)", "$.a.Equal(0x1p-2)", "$.a.Equal(1_0)",
-		"\x00", "$.a\x00", "$.\xff", "\xef\xbb\xbf$.a", "$.a.Equal(\"\\d\")", "$.a.Equal(\"\\\")", "$.é", "$.日本.Equal(\"語\")", "$.a.Equal('c')", "$.a.Equal('cc')", "$\u00a0.a", "$.a\u2028"}
+		"\x00", "$.a\x00", "$.\xff", "\xef\xbb\xbf$.a", "$.a.Equal(\"\\d\")", "$.a.Equal(\"\\\")", "$.é", "$.日本.Equal(\"語\")", "$.a.Equal('c')", "$.a.Equal('cc')", "$\u00a0.a", "$.a\u2028",
+		// a backslash pair followed by a letter that also forms an escape with the second backslash
+		"$.a.Equal(\"C:\\\\temp\")", "$.a.Equal(\"\\\\n\")", "$.a.Equal(\"a\\\\tb\\\\\\\"c\")", "$.a.Equal(\"\\\\\\\\r\\\\v\")", "$.s.ReplaceAll(\"\\\\a\",\"\\\\b\")"}
 	inputs = append(inputs, special...)
 	deep := strings.Repeat("{", 1000) + "$.a" + strings.Repeat("}", 1000)
 	inputs = append(inputs, deep, strings.Repeat("$.a[@.b", 300)+strings.Repeat("]", 300), "$.a"+strings.Repeat(".Equal($.a", 500)+strings.Repeat(")", 500))
@@ -302,7 +304,8 @@ func c08(c *Ctx) {
 	c.Note("parses", len(refs)*4)
 }
 
-var faultModes = []string{"bytes, then the error on every later Read", "the last bytes together with the error, then EOF", "the last bytes together with the error, the error again later", "the error once, then EOF"}
+var faultModes = []string{"bytes, then the error on every later Read", "the last bytes together with the error, then EOF", "the last bytes together with the error, the error again later", "the error once, then EOF",
+	"bytes, then io.ErrUnexpectedEOF on every later Read", "io.ErrUnexpectedEOF once, then EOF"}
 
 func isWordTok(t string) bool {
 	ch := t[0]
